@@ -33,7 +33,7 @@ ASSUMPTIONS = ['"every message expressible with the payload classes" is sampled:
                'enum NAMES in the dump are compared through small tables transcribed from the RFC for payload, exchange, protocol, transform-type, '
                'TS and ID types, other names only as "ends with the number or is a known name"']
 EXPECT_REACH = ['emitted_reencoded', 'dumps_compared', 'dumps_compared_encrypted', 'idempotence_checked', 'byz.injected', 'unknown_noncritical_skipped',
-                'unknown_critical_rejected', 'trailing_rejected', 'payload.SA', 'payload.TSi', 'payload.DELETE', 'payload.NOTIFY', 'payload.KE',
+                'unknown_critical_rejected', 'trailing_rejected', 'byz.outer_payloads_before_sk', 'payload.SA', 'payload.TSi', 'payload.DELETE', 'payload.NOTIFY', 'payload.KE',
                 'payload.IDi', 'payload.AUTH', 'payload.VENDOR', 'ipv6_selector', 'multi_proposal', 'delete_multi_spi', 'debug_dump_logged']
 PT = {33: 'SA', 34: 'KE', 35: 'IDi', 36: 'IDr', 37: 'CERT', 38: 'CERTREQ', 39: 'AUTH', 40: 'NONCE', 41: 'NOTIFY', 42: 'DELETE', 43: 'VENDOR',
       44: 'TSi', 45: 'TSr', 46: 'SK', 47: 'CP', 48: 'EAP'}
@@ -407,7 +407,15 @@ class Byzantine:
             is_res = r.random() < 0.3
             base = sa.my_msg_id if is_res else sa.peer_msg_id
             h = {'spi_i': spi_i, 'spi_r': spi_r, 'exch': r.choice([35, 36, 37]), 'I': not sa.is_initiator, 'R': is_res, 'id': base + r.choice([3, 9, 50])}
-            data = _seal_raw(h, first, chain, integ_id, sk_a, sk_e, bytes(r.getrandbits(8) for _ in range(16)))
+            outer = []
+            if r.random() < 0.25:
+                # cleartext payloads in front of SK (allowed: SK only has to be the last payload): known ones and unknown non-critical ones
+                for _ in range(r.randint(1, 2)):
+                    outer.append(r.choice([{'type': R.P_NOTIFY, 'proto': 0, 'ntype': r.choice([16388, 16389, 16404, 40000]), 'spi': b'', 'data': bytes(r.getrandbits(8) for _ in range(r.choice([0, 8, 20])))},
+                                           {'type': R.P_VENDOR, 'data': b'outer-vendor-' + bytes([65 + r.randrange(26)])},
+                                           {'type': r.choice([47, 49, 200]), 'data': bytes(r.getrandbits(8) for _ in range(r.choice([0, 4, 12]))), 'critical': False}]))
+                self.watch._r('byz.outer_payloads_before_sk')
+            data = _seal_raw(h, first, chain, integ_id, sk_a, sk_e, bytes(r.getrandbits(8) for _ in range(16)), outer=outer)
             return data, exp, (pls if exp[0] != 'trailing' else None)
         # clear: an IKE_SA_INIT request is parsed in full whoever sends it (a new responder IKE_SA)
         flags = 0x08 | (flags_variety & 0x10)
